@@ -15,6 +15,7 @@ from harness.runs import node_id, pairs_term, pick_config, run_with_events, trac
 from harness.tracing_store import Trace, TracingStore, is_chunk_key
 
 LEVEL = "proof"
+TRANSLATED_KERNELS = ["skip_node", "visit_nodes", "visit_node_generations"]   # harness/translate.py: cubed/runtime/pipeline.py re-translated from /repo on every run and proved equal to Model.Events.visit_nodes / visit_generations
 RULE = ("generated programs (independent branches, diamonds, chains with unequal task counts, several outputs) run on the real "
         "single-threaded / threads / processes executors with compute_arrays_in_parallel, batch_size, max_workers drawn, through a "
         "tracing store that injects random write latency; K: networkx's topological order / generations of the finalized DAG are "
